@@ -150,3 +150,22 @@ package option
 //@   requires len(option.Assignments) >= 1
 //@   modifies spare-capacity
 //@   ensures  noargs: len(option.Args) < 1 ==> len(result) == 1 && result[0] == option
+//
+// add_assignment: the configured assignment is converted for the builder that owns the option (paths are
+// resolved against that builder's object); exactly one option comes back, with the name, arguments,
+// default and comments it had; its earlier assignments are kept in place and at most one is added - none
+// when the conversion fails.
+//@ func AddAssignmentAction$1
+//@   property C17
+//@   at-call "veneers.Assignment.AsIR" converted: $arg0 == assignment && $arg1 == schemas && $arg3 == builder && len($arg2) == 1 && $arg2[0] == builder
+//@   modifies spare-capacity
+//@   ensures  one: len(result) == 1 && fresh(result)
+//@   ensures  kept: result[0].Name == option.Name && result[0].Args == option.Args && result[0].Default == option.Default && result[0].Comments == option.Comments
+//@   ensures  assignments: len(result[0].Assignments) >= len(option.Assignments) && len(result[0].Assignments) <= len(option.Assignments) + 1 && (forall k: int :: 0 <= k && k < len(option.Assignments) ==> result[0].Assignments[k] == option.Assignments[k])
+//
+// veneer_trail_as_comments: one comment per trail entry is appended; everything else is kept.
+//@ func VeneerTrailAsCommentsAction$1
+//@   property C17
+//@   modifies spare-capacity
+//@   ensures  one: len(result) == 1 && fresh(result)
+//@   ensures  kept: result[0].Name == opt.Name && result[0].Args == opt.Args && result[0].Assignments == opt.Assignments && result[0].Default == opt.Default
